@@ -1073,6 +1073,7 @@ type jgen struct {
 	inMap  int
 	signed bool // allow the signed numeric references of finding C01-jsx-signed-numeric-entity
 	dashOK bool // allow names that end in "-" (finding C01-jsx-preserve-minify-dash-glue when preserve is minified)
+	noFFFF bool // no raw U+FFFF (finding C01-jsx-dev-column-uffff in development mode)
 	labels map[string]bool
 }
 
@@ -1281,10 +1282,18 @@ func (g *jgen) word() string {
 		if pct(g.rt, "isentity", 35) {
 			sb.WriteString(g.entity(true))
 		} else {
-			sb.WriteString(pick(g.rt, "piece", jsxWordPieces))
+			sb.WriteString(g.piece())
 		}
 	}
 	return sb.String()
+}
+
+func (g *jgen) piece() string {
+	s := pick(g.rt, "piece", jsxWordPieces)
+	if s == "\uffff" && g.noFFFF {
+		s = "\ufffe"
+	}
+	return s
 }
 
 func (g *jgen) body() string {
@@ -1379,7 +1388,7 @@ func (g *jgen) attrString() (string, byte) {
 			}
 			fallthrough
 		default:
-			sb.WriteString(pick(rt, "piece", jsxWordPieces))
+			sb.WriteString(g.piece())
 		}
 	}
 	s := sb.String()
@@ -1685,6 +1694,7 @@ func genJSXCase(rt *rapid.T, lit bool) JSXCase {
 	o := drawJSXOpts(rt)
 	g := &jgen{rt: rt, auto: o.Mode == "automatic", labels: map[string]bool{}}
 	g.dashOK = !o.Pre.MinifyWS || pct(rt, "dashok", 10)
+	g.noFFFF = o.Dev && !pct(rt, "ffffok", 5)
 	mode := refMode{auto: g.auto, dev: o.Dev}
 	var c JSXCase
 	if lit {
